@@ -190,6 +190,11 @@ func (e *Environment) Set(name string, val object.Object) object.Object {
 	return val
 }
 
+// Unset removes a globally-scoped variable, by name.
+func (e *Environment) Unset(name string) {
+	delete(e.global, name)
+}
+
 // AddScope sets up storage for a new scope, which can store an arbitrary
 // number of local variables, these will be mass-discarded in the future
 // via `RemoveScope`.
